@@ -72,6 +72,13 @@ theorem unquote_quote_double_partial (s : Bytes) (h : noPair 39 s = true) :
     unquoteDouble (quoteDouble s) = some s :=
   unquoteDouble_quoteDouble s h
 
+/-- The exclusion is exact: the round trip of the natural `"`-printer holds IF AND ONLY IF the
+string has no backslash directly before an apostrophe (otherwise `UnquoteDoubleQuoted` returns an
+error). -/
+theorem unquote_quote_double_iff (s : Bytes) :
+    unquoteDouble (quoteDouble s) = some s ↔ noPair 39 s = true :=
+  unquoteDouble_quoteDouble_iff s
+
 /-- `UnquoteSingleQuoted ∘ quoteSingle = id` — PARTIAL: for every byte string that has no
 backslash directly followed by a double quote (D16 again, mirrored). -/
 theorem unquote_quote_single_partial (s : Bytes) (h : noPair 34 s = true) :
